@@ -142,9 +142,14 @@ func nonDefaultStrings(t *tm.Term) string {
 // strings to their tokens. The result identifies the finding: the
 // known-findings file lists (clause | minimal skeleton | strings).
 func minimize(t *tm.Term, clause string, eval func(t *tm.Term) string) *tm.Term {
+	return minimizeWith(t, func(c *tm.Term) bool { return keyOf(eval(c)) == clause })
+}
+
+// minimizeWith shrinks t while pred keeps holding.
+func minimizeWith(t *tm.Term, pred func(c *tm.Term) bool) *tm.Term {
 	still := func(c *tm.Term) bool {
 		c.FillTokensKeeping()
-		return keyOf(eval(c)) == clause
+		return pred(c)
 	}
 	cur := t.Clone()
 	for changed := true; changed; {
